@@ -79,6 +79,7 @@ fn scenario(ctx: &Ctx, idx: u64) -> Report {
         let max_lat = *[20 * MS, 150 * MS, 400 * MS, 700 * MS].choose(&mut rng).unwrap();
         net.set_link(Link::uniform(0, max_lat));
         net.set_log_enabled(false);
+        net.set_send_yield(*[0.0, 0.0, 0.3, 1.0].choose(&mut rng).unwrap());
 
         let addrs: Vec<SocketAddr> = (0..n).map(|i| node_addr(v6, 10 + i as u32)).collect();
         let mut nodes: Vec<NodeInfo> = Vec::new();
